@@ -7,12 +7,14 @@ import LDEval.Model.Bucket
 
 namespace LD.Obligations
 
-theorem longScale_literal : Generated.longScaleLiteral = 0xFFFFFFFFFFFFFFF := rfl
-theorem longScale_model : LD.longScale = SoftF32.ofInt (Generated.longScaleLiteral : Nat) := rfl
+/-- The divisor of the bucket division, as the compiler sees it (`float32(0xFFFFFFFFFFFFFFF)`
+rounds to 2^60), is the value the model divides by. -/
+theorem longScale_value : Generated.longScaleValue = 2 ^ 60 := by decide
+theorem longScale_model : LD.longScale = (Generated.longScaleValue : Nat) := by
+  decide +kernel
 theorem buffer_size : Generated.initialHashInputBufferSize = LD.initialHashInputBufferSize := rfl
 /-- Every call to `internal.ParseHexUint64` in the evaluation package receives the first 15 hex
 digits of the hash (model: `Bucket.hashPrefix`). -/
 theorem hex_digits : Generated.hashHexDigits = 15 := rfl
-theorem prealloc : Generated.preallocatedPrerequisiteChainSize = Expected.preallocatedPrerequisiteChainSize ∧
-    Generated.preallocatedSegmentChainSize = Expected.preallocatedSegmentChainSize := ⟨rfl, rfl⟩
+theorem prealloc : Generated.preallocatedChainSizes = Expected.preallocatedChainSizes := rfl
 end LD.Obligations
